@@ -373,6 +373,7 @@ func (m *tableMon) topupInvoke(id string, amt int64) {
 
 func (m *tableMon) memberAfter(kind string, before, after *memberSnap, atomic bool, err error, joins []pt.JoinPlayer, leaves []string) {
 	c := m.c
+	m.lastMemberOpMs = c.NowMs()
 	tb := m.w.eng.GetTable()
 	retSeq := c.Seq()
 	if !atomic {
@@ -628,6 +629,16 @@ func (m *tableMon) audit() {
 		m.obligedOpen = m.obligedOpen && open
 		m.obligedPause = m.obligedPause && pause
 		deadline := m.lastSettledMs + int64(w.cfg.interval)*1000 + specOpenGameTimeoutS*1000 + specSlackMs + m.extraMs + w.be.SleptMs
+		if m.lastMemberOpMs > m.lastSettledMs {
+			// a membership change at the instant the gate fired may have made that attempt fail for
+			// lack of two seated-in players; the engine retries every 3 s (for 30 s)
+			if d := m.lastMemberOpMs + 3000 + specSlackMs + m.extraMs; d > deadline {
+				deadline = d
+			}
+			if m.lastMemberOpMs > m.lastSettledMs+int64(w.cfg.interval)*1000+specOpenGameTimeoutS*1000+29000 {
+				m.obligedOpen = false // the retries are over; nothing re-triggers an open
+			}
+		}
 		if now > deadline && m.obligedOpen {
 			c.Judged("C08.progress")
 			parts := -1
@@ -685,6 +696,20 @@ func (m *tableMon) audit() {
 		}
 	} else {
 		m.persist("phase", "")
+	}
+	// C13: whenever no backend call is in flight, the engine's hand state is the state returned by the
+	// last successful backend call (a failed step must not have changed - or rolled back - the hand)
+	if g := w.eng.GetGame(); g != nil && w.be.inFlight == 0 && w.be.lastOK != "" && st.GameState != nil && m.cur != nil && m.cur.settled == nil {
+		c.Judged("C13.hand_state_is_latest")
+		val := ""
+		if gs := g.GetGameState(); gs != nil && gs.GameID == st.GameState.GameID && normState(gs) != w.be.lastOK {
+			val = gs.Status.CurrentEvent + "/" + gs.Status.Round
+		}
+		if m.persist("c13latest", val) {
+			c.Viol("C13", "C13.hand_state_not_latest", map[string]any{"after_failure": len(w.be.calls) > 0 && w.be.anyFailed}, "with no backend call in flight the engine's hand state (%s) is not the state returned by the last successful backend call (%s)", val, w.be.lastKind)
+		}
+	} else {
+		m.persist("c13latest", "")
 	}
 	// C13: engine-driven failures must be reported through the error callback
 	for _, f := range m.pendingEngineFaults {
